@@ -92,7 +92,9 @@ pub fn gen_large_block_case(seed: u64) -> Case {
         s2.push((format!("B#1#c{i}"), w));
     }
     let set = genomes::SampleSet { samples: vec![genomes::Sample { name: "A#1".into(), contigs: s1 }, genomes::Sample { name: "B#1".into(), contigs: s2 }] };
-    let params = Params { k: 21, segment_size: 2000, min_match_len: 20, pack_size: 50, threads: 1, queue_capacity: 2 << 30, fallback_frac: 0.0 };
+    // pack_size 5: the big contig is compressed in an EARLY round, the later rounds then run on
+    // worker threads of which one has the big block in its thread-local compression context
+    let params = Params { k: 21, segment_size: 2000, min_match_len: 20, pack_size: 5, threads: 1, queue_capacity: 2 << 30, fallback_frac: 0.0 };
     let desc = json!({"seed": seed, "index": "large-block", "single_file": true, "contigs": 49, "params": params.to_json()});
     Case { set, params, single_file: true, desc }
 }
